@@ -67,7 +67,7 @@ func c06OpArgs() []c06Arg {
 	return []c06Arg{{"Eq", stackage.Eq}, {"Ne", stackage.Ne}, {"Ge", stackage.Ge}, {"nil", nil}, {`UserOp{"~=","ctx"}`, UserOp{"~=", "ctx"}},
 		{`UserOp{"","ctx"}`, UserOp{"", "ctx"}}, {`UserOp{"x",""}`, UserOp{"x", ""}}, {"ComparisonOperator(0)", stackage.ComparisonOperator(0)}, {"ComparisonOperator(9)", stackage.ComparisonOperator(9)},
 		{"(*ComparisonOperator)(nil)", (*stackage.ComparisonOperator)(nil)}, {"EnumOp(0)", EnumOp(0)}, {"EnumOp(1)", EnumOp(1)}, {"UnitOp{}", UnitOp{}},
-		{"EnumOp(42)", EnumOp(42)}, {"&ComparisonOperator(Le)", c06OpPtr(5)}, {"&ComparisonOperator(9)", c06OpPtr(9)}, {"&ComparisonOperator(0)", c06OpPtr(0)}, {"IntOp(0)", IntOp(0)}, {"IntOp(42)", IntOp(42)}, {"IntOp(-7)", IntOp(-7)}}
+		{"EnumOp(42)", EnumOp(42)}, {`UserOp{">=","comparison"}`, UserOp{">=", "comparison"}}, {`UserOp{"=","comparison"}`, UserOp{"=", "comparison"}}, {"&ComparisonOperator(Le)", c06OpPtr(5)}, {"&ComparisonOperator(9)", c06OpPtr(9)}, {"&ComparisonOperator(0)", c06OpPtr(0)}, {"IntOp(0)", IntOp(0)}, {"IntOp(42)", IntOp(42)}, {"IntOp(-7)", IntOp(-7)}}
 }
 
 func c06ExArgs() []c06Arg {
@@ -224,6 +224,30 @@ func c06ReInit(c *core.Ctx, log *[]string) c06Step {
 			c.Violate("second-handle:Init", "a Stack holding the Condition changed when another handle was re-initialised: "+d+" after ["+strings.Join(*log, "; ")+"]", map[string]any{"calls": *log})
 		}
 		c.Count("re-init-with-second-handle")
+		return "", false
+	}}
+}
+
+// c06Others: other, unrelated instances go through resets of their encapsulation and take new pairs (so does this one,
+// first): what this Condition reads as is its own business.
+func c06Others(c *core.Ctx, log *[]string) c06Step {
+	return c06Step{"SetEncap(); SetEncap(\"); (other instances reset and re-encapsulate)", func(cd *stackage.Condition, m *c06Model) (string, bool) {
+		cd.SetEncap()
+		cd.SetEncap(`"`)
+		before := cd.String()
+		kw, op, ex := cd.Keyword(), cd.Operator(), cd.Expression()
+		o := stackage.Cond("other", stackage.Ne, "ov").SetEncap()
+		o.SetEncap([]string{"<", ">"})
+		var o2 stackage.Condition
+		o2.Init()
+		o2.SetEncap()
+		o2.SetEncap("'")
+		os := stackage.And().Push("z").SetEncap()
+		os.SetEncap([]string{"{", "}"})
+		if after := cd.String(); after != before || cd.Keyword() != kw || !SameValue(cd.Operator(), op) || !SameValue(cd.Expression(), ex) {
+			c.Violate("changed-by-other-instances", fmt.Sprintf("String() was %q and is %q after OTHER instances reset their encapsulation and took new pairs; after [%s]", before, after, strings.Join(*log, "; ")), map[string]any{"calls": *log})
+		}
+		c.Count("other-instances-in-between")
 		return "", false
 	}}
 }
@@ -390,6 +414,10 @@ func c06Run(c *core.Ctx, idx int) {
 	if idx >= exh && r.Chance(1, 5) && len(steps) > 2 {
 		at := r.Range(1, len(steps)-1)
 		steps = append(steps[:at], append([]c06Step{c06ReInit(c, &log)}, steps[at:]...)...)
+	}
+	if idx >= exh && r.Chance(1, 5) && len(steps) > 1 {
+		at := r.Range(1, len(steps))
+		steps = append(steps[:at], append([]c06Step{c06Others(c, &log)}, steps[at:]...)...)
 	}
 	accepted := map[string]bool{}
 	nontrivial := false
